@@ -107,13 +107,20 @@ def search(res, tier, seed, deep=False):
                 rs = np.random.RandomState(r.randint(0, 10 ** 6))
                 n = 400
                 o, h, f = R.series(rs, n, var), R.series(rs, n, var, 1.0, 1.2), R.series(rs, n, var, 2.0, 1.1)
+                if var == "pr":       # light drizzle below every wet-day threshold (values a thresholding step would overwrite)
+                    for x in (o, h, f):
+                        k = rs.rand(n) < 0.1; x[k] = rs.rand(int(k.sum())) * 5e-7 + 1e-9
                 o2, h2, f2 = R.series(rs, 380, var, 3.0), R.series(rs, 380, var, -2.0), R.series(rs, 390, var, 5.0)
                 tO, tF = R.times(n, "1981-01-01"), R.times(n, "2041-01-01")
                 t2 = R.times(390, "2001-05-05")
                 inp = dict(debiaser=name, variable=var, window_mode=mode, seed=seed)
                 try:
                     st0 = state_of(d)
+                    before_loc = [x.tobytes() for x in (o, h, f)]
                     a = R.run(d, o, h, f, tO, tO, tF, seed=9)
+                    if before_loc != [x.tobytes() for x in (o, h, f)]:
+                        report("apply_location-modified-input:" + name, inp, [i_ for i_, (u_, v_) in enumerate(zip(before_loc, [x.tobytes() for x in (o, h, f)])) if u_ != v_],
+                               "apply_location modified one of the caller's series (0 = obs, 1 = cm_hist, 2 = cm_future)")
                     if state_of(d) != st0:
                         report("apply_location-changed-instance:" + name, inp, sorted(set(state_of(d).items()) ^ set(st0.items()), key=str)[:4], "apply_location added or grew an attribute of the debiaser")
                     b = R.run(d, o, h, f, tO, tO, tF, seed=9)                       # repeated call
